@@ -237,6 +237,18 @@ func (d *testIface) VarlinkDispatch(ctx context.Context, c varlink.Call, methodn
 			sim.Rec("h.act", sf(`{"cid":%d,"i":%d,"op":"builtin","err":%q}`, cid, i, errStr(err)))
 		case "sleep":
 			sim.Sleep(time.Duration(a.N) * time.Microsecond)
+		case "stream":
+			// a handler that streams continues-replies until Reply tells it that the
+			// peer is gone (at most N of them, one every 50 simulated microseconds)
+			for j := 0; j < a.N; j++ {
+				c.Continues = true
+				err := c.Reply(ctx, rawOrNil(a.Params))
+				sim.Rec("h.stream", sf(`{"cid":%d,"j":%d,"err":%q}`, cid, j, errStr(err)))
+				if err != nil {
+					break
+				}
+				sim.Sleep(50 * time.Microsecond)
+			}
 		case "awaitev":
 			// the handler goes on only when the other side has seen what was sent so
 			// far (at least N log events of kind Name): replies are not held back
